@@ -77,15 +77,21 @@ Answers == {"ok", "bad", "joined", "nonet", "notjoined", "fail", "match", "misma
 Expected(c, s, e) == \E r \in Answers : CmdStep(c, s, [e EXCEPT !.r = r]) # {}
 
 Steps(c, s, e) ==
-    CASE e.a = "cmd" /\ Lost(e) -> IF Expected(c, s, e) THEN {Fail(s, "TimeoutError")} ELSE {}
-      [] e.a = "cmd" -> CmdStep(c, s, e)
+    CASE e.a = "cmd" /\ s.pc # "conn" /\ Lost(e) -> IF Expected(c, s, e) THEN {Fail(s, "TimeoutError")} ELSE {}
+      [] e.a = "cmd" /\ s.pc # "conn" /\ ~Lost(e) -> CmdStep(c, s, e)
       [] e.a = "up" -> IF s.pc = "wait" THEN {AfterUp(c, s)} ELSE {}
-      [] e.a = "reset" -> IF s.pc = "reset" THEN {[s EXCEPT !.pc = "boot", !.pass = 2, !.up = FALSE, !.resets = @ + 1]} ELSE {}
+      [] e.a = "reset" /\ s.pc = "conn" -> {s}
+      [] e.a = "cmd" /\ s.pc = "conn" -> {s}
+      [] e.a = "reset" /\ s.pc # "conn" -> IF s.pc = "reset" THEN {[s EXCEPT !.pc = "boot", !.pass = 2, !.up = FALSE, !.resets = @ + 1]} ELSE {}
       \* registration and the running mark are two synchronous statements: either order
-      [] e.a = "reg" -> IF s.pc = "load" /\ ~s.regd
-                        THEN {[s EXCEPT !.regd = TRUE, !.cbs = @ + 1, !.pc = IF s.setd THEN "mcast" ELSE "load"]} ELSE {}
-      [] e.a = "set" -> IF s.pc = "load" /\ ~s.setd
-                        THEN {[s EXCEPT !.setd = TRUE, !.running = TRUE, !.pc = IF s.regd THEN "mcast" ELSE "load"]} ELSE {}
+      [] e.a = "reg" -> IF s.pc \in {"load", "mid"} /\ ~s.regd /\ (s.pc = "mid" => s.setd)
+                        THEN {[s EXCEPT !.regd = TRUE, !.cbs = @ + 1, !.pc = IF s.setd THEN "mcast" ELSE "mid"]} ELSE {}
+      [] e.a = "set" -> IF s.pc \in {"load", "mid"} /\ ~s.setd /\ (s.pc = "mid" => s.regd)
+                        THEN {[s EXCEPT !.setd = TRUE, !.running = TRUE, !.pc = IF s.regd THEN "mcast" ELSE "mid"]} ELSE {}
+      \* the application lets go of the connection: not running any more; a new connection (new EZSP object: no callbacks yet) is brought up
+      \* by connect() - ASH reset, version, configuration, endpoints (C09, C16) - and start_network() begins afresh
+      [] e.a = "disconnect" -> IF s.pc = "ended" /\ ~e.running THEN {[NS0 EXCEPT !.pc = "conn"]} ELSE {}
+      [] e.a = "connected" -> IF s.pc = "conn" /\ e.cbs = 0 /\ ~e.running THEN {NS0} ELSE {}
       [] e.a = "end" ->
              IF s.pc = "raise" THEN (IF e.out = s.out /\ e.running = s.running /\ e.cbs = s.cbs THEN {[s EXCEPT !.pc = "ended"]} ELSE {})
              ELSE IF s.pc = "wait" THEN (IF e.out = "TimeoutError" /\ e.t - s.t0 = c.upT /\ ~e.running /\ e.cbs = 0
